@@ -182,8 +182,24 @@ class PyInterp(Interp):
                 return a + b
             if isinstance(a, tuple) and isinstance(b, tuple):
                 return a + b
+        if isinstance(n, ast.Dict) and all(k is not None for k in n.keys):
+            out = {}
+            for k, v in zip(n.keys, n.values):
+                kk = self.eval(k, env)
+                try:
+                    hash(kk)
+                except TypeError:
+                    raise Crash(f"unhashable dict key {kk!r}")
+                out[kk] = self.eval(v, env)
+            return out
         if isinstance(n, ast.Subscript) and not isinstance(n.slice, ast.Slice):
             v = self.eval(n.value, env)
+            if isinstance(v, dict):
+                i = self.eval(n.slice, env)
+                try:
+                    return v[i]
+                except (KeyError, TypeError) as e:
+                    raise Crash(f"`{src(n)}`: {type(e).__name__} {e}")
             if isinstance(v, (tuple, list)):
                 i = self.eval(n.slice, env)
                 try:
